@@ -185,6 +185,13 @@ func (e *Engine) runOnce(c *Contract, fn *ssa.Function, res *FuncResult) {
 			e.addGlobalFact(tb.IntCmp("<", tb.RootID(r), st.clock))
 			e.addGlobalFact(tb.IntCmp(">=", tb.RootID(r), tb.Int(0)))
 			tb.OldRefs[r] = true
+			// the object a pointer parameter refers to is well formed at entry (one level deep)
+			if _, isStruct := u.Elem().Underlying().(*types.Struct); isStruct {
+				func() {
+					defer func() { recover() }()
+					e.assumeWF(fr, st, e.loadObj(st, r, u.Elem()), u.Elem())
+				}()
+			}
 			if i == 0 && fn.Signature.Recv() != nil {
 				e.addGlobalFact(tb.Not(tb.Eq(r, tb.RefNil())))
 			}
